@@ -140,8 +140,9 @@ fn well_formed(c: &FtrlCase) -> bool {
         && c.beta >= 0.0
         && (0.0..=1.0).contains(&c.l1)
         && (0.0..=1.0).contains(&c.l2)
-        // beta = 0 and l2 = 0: the per-coordinate learning rate alpha/(beta + sqrt n) is infinite at n = 0
-        && (c.beta > 0.0 || c.l2 > 0.0)
+        // (beta = 0 with l2 = 0 makes the learning rate alpha/(beta + sqrt n) infinite at n = 0; the generator keeps it
+        // only with l1 = 1, where the documented weight of such a coordinate is 0 by the |z| <= l1 rule; a stored case
+        // whose reference state is not finite is counted, not judged)
         && !c.batches.is_empty()
         && c.batches.iter().all(|b| !b.x.is_empty() && b.x.len() == b.y.len() && b.x.iter().all(|r| r.len() == c.p && r.iter().all(|v| v.is_finite())))
 }
@@ -284,6 +285,7 @@ pub fn check(c: &FtrlCase, obs: &mut Obs) {
     layout::classify(None, &c.batch_layouts, c.batches.len(), obs);
     obs.class_if(c.batches.len() == 1, "ftrl_single_update");
     obs.class_if(c.batches.len() >= 5, "ftrl_five_or_more_updates");
+    obs.class_if(c.beta == 0.0 && c.l2 == 0.0, "ftrl_beta0_l2_0_zero_denominator_at_n0");
     obs.class_if(c.l1 == 0.0, "ftrl_l1_zero");
     obs.class_if(c.l1 == 1.0, "ftrl_l1_one");
     obs.class_if(c.batches.iter().any(|b| b.via_update), "ftrl_via_update");
@@ -343,8 +345,10 @@ pub fn strategy(_tier: Tier) -> impl Strategy<Value = FtrlCase> {
                     })
             })
             .collect();
-        // beta = 0 with l2 = 0 is outside the domain (infinite first learning rate): lift l2
-        let l2 = if beta == 0.0 && l2 == 0.0 { 0.1 } else { l2 };
+        // beta = 0 with l2 = 0: the denominator is 0 at n = 0. With l1 = 1 every seeded initial z (drawn from [0, 1))
+        // satisfies |z| <= l1, the documented weight is exactly 0 there and the configuration is inside the domain; with
+        // l1 < 1 a fresh coordinate gets an infinite weight (infinite first learning rate, outside the domain): lift l2
+        let l2 = if beta == 0.0 && l2 == 0.0 && l1 < 1.0 { 0.1 } else { l2 };
         batches.prop_map(move |batches| FtrlCase { p, alpha, beta, l1, l2, seed, batches, batch_layouts: batch_layouts.clone() })
     })
 }
